@@ -62,7 +62,11 @@ type Run struct {
 	// Digest is folded into the reach signature (final model digest etc).
 	Digest  string
 	Scratch string // per-run scratch directory (removed after the run)
-	keepLog bool
+	// known maps violation signatures listed in known_findings.json (status
+	// "known") to their ids; a violation with such a signature is counted in
+	// KnownSeen and the run goes on.
+	known     map[string]string
+	KnownSeen map[string]int
 }
 
 // Logf appends to the event log. It never draws and never reads a clock.
@@ -103,15 +107,28 @@ func (r *Run) Op(kind string) {
 	r.mu.Unlock()
 }
 
-// Fail records the first violation of the run.
-func (r *Run) Fail(class, site, format string, args ...interface{}) {
+// Fail records the first violation of the run and reports whether it counts:
+// a violation whose signature is a listed known finding is only counted
+// (KnownSeen) and the run continues, so that a different violation of the same
+// property is still found.
+func (r *Run) Fail(class, site, format string, args ...interface{}) bool {
 	r.mu.Lock()
 	defer r.mu.Unlock()
 	if r.Violation != nil {
-		return
+		return true
 	}
-	r.Violation = &Violation{Class: class, Site: site, Detail: fmt.Sprintf(format, args...)}
-	r.events = append(r.events, "VIOLATION "+r.Violation.Signature()+": "+r.Violation.Detail)
+	v := &Violation{Class: class, Site: site, Detail: fmt.Sprintf(format, args...)}
+	if id, ok := r.known[v.Signature()]; ok {
+		if r.KnownSeen == nil {
+			r.KnownSeen = map[string]int{}
+		}
+		r.KnownSeen[id]++
+		r.events = append(r.events, "KNOWN-FINDING "+v.Signature()+": "+v.Detail)
+		return false
+	}
+	r.Violation = v
+	r.events = append(r.events, "VIOLATION "+v.Signature()+": "+v.Detail)
+	return true
 }
 
 // Failed reports whether a violation has been recorded.
@@ -328,7 +345,10 @@ func Main(t *testing.T, h Harness) {
 		replaysDir = filepath.Join(outDir, "replays")
 	}
 	replay := os.Getenv("VERIF_REPLAY")
-	known := LoadKnown(h.Property)
+	knownSigs := map[string]string{}
+	for _, k := range LoadKnown(h.Property) {
+		knownSigs[k.Signature] = k.ID
+	}
 
 	scratch := ScratchRoot()
 	defer os.RemoveAll(scratch)
@@ -401,7 +421,7 @@ func Main(t *testing.T, h Harness) {
 	)
 
 	execOnce := func(plan interface{}) *Run {
-		run := &Run{Faults: map[string]int{}, Probes: map[string]int{}}
+		run := &Run{Faults: map[string]int{}, Probes: map[string]int{}, known: knownSigs}
 		run.Scratch = filepath.Join(scratch, fmt.Sprintf("run%d", progress.Add(1)))
 		os.MkdirAll(run.Scratch, 0o777)
 		defer os.RemoveAll(run.Scratch)
@@ -450,17 +470,14 @@ func Main(t *testing.T, h Harness) {
 				res.Samples = append(res.Samples, map[string]interface{}{"plan": h.Describe(plan), "events": ev})
 			}
 		}
+		if searching {
+			for id, n := range run.KnownSeen {
+				res.KnownSeen[id] += n
+			}
+		}
 		v := run.Violation
 		if v == nil {
 			return
-		}
-		for _, k := range known {
-			if k.Signature == v.Signature() || k.Signature == v.Class {
-				if searching {
-					res.KnownSeen[k.ID]++
-				}
-				return // a listed finding: noted, search goes on
-			}
 		}
 		if targetClass == "" {
 			targetClass = v.Signature()
@@ -517,6 +534,10 @@ func Main(t *testing.T, h Harness) {
 		return
 	}
 
+	flag.Set("rapid.shrinktime", os.Getenv("VERIF_SHRINK_TIME"))
+	if os.Getenv("VERIF_SHRINK_TIME") == "" {
+		flag.Set("rapid.shrinktime", "90s")
+	}
 	batch := 0
 	for res.Runs < runs && time.Since(start) < budget {
 		n := runs - res.Runs
